@@ -34,7 +34,7 @@ func (c *Ctx) ruleC11PlacementPaths() {
 	ev := c.newEval()
 	ev.MaxPaths = 3000
 	ev.Follow = func(fn *ssa.Function) bool {
-		return fn.Pkg != nil && strings.HasPrefix(fn.Pkg.Pkg.Path(), prog.ModulePath) && fn.Pkg.Pkg.Path() != dirPkg
+		return inModule(fn) && fn.Pkg != nil && fn.Pkg.Pkg.Path() != dirPkg
 	}
 	base := ev.Oracle
 	ev.WantCall = func(fn *ssa.Function) bool { return fn.Name() == "AppendChild" }
